@@ -388,6 +388,23 @@ Module RangeM (V : UsualOrderedTypeFull).
     | _, _ => false
     end.
 
+  (* ---- Display, token level: what each rendered piece means ---- *)
+  Inductive token := TStar | TVer (v : ver) | TLt (v : ver) | TLe (v : ver) | TGt (v : ver) | TGe (v : ver).
+  (* a segment prints as one atom or as "lo, hi" (a conjunction); segments are joined by " | " *)
+  Definition seg_tokens (sg : seg) : list token :=
+    match sg with
+    | (Unb, Unb) => [TStar]
+    | (Unb, Incl v) => [TLe v]
+    | (Unb, Excl v) => [TLt v]
+    | (Incl v, Unb) => [TGe v]
+    | (Incl v, Incl b) => if veqb v b then [TVer v] else [TGe v; TLe b]
+    | (Incl v, Excl b) => [TGe v; TLt b]
+    | (Excl v, Unb) => [TGt v]
+    | (Excl v, Incl b) => [TGt v; TLe b]
+    | (Excl v, Excl b) => [TGt v; TLt b]
+    end.
+  Definition display_tokens (r : range) : list (list token) := map seg_tokens r.   (* [] prints as "∅" *)
+
   (* ---- Display (l.883-913) ---- *)
   Section Display.
     Variable show : ver -> text.
@@ -407,6 +424,17 @@ Module RangeM (V : UsualOrderedTypeFull).
       match r with
       | [] => txt "∅"
       | _ => join (txt " | ") (map display_seg r)
+      end.
+
+    Definition render_token (t : token) : text :=
+      match t with
+      | TStar => txt "*" | TVer v => show v | TLt v => txt "<" ++ show v | TLe v => txt "<=" ++ show v
+      | TGt v => txt ">" ++ show v | TGe v => txt ">=" ++ show v
+      end.
+    Definition render (tl : list (list token)) : text :=
+      match tl with
+      | [] => txt "∅"
+      | _ => join (txt " | ") (map (fun conj => join (txt ", ") (map render_token conj)) tl)
       end.
   End Display.
 
